@@ -1579,7 +1579,11 @@ class MiscFam(Family):
     no_model = True
     exact = False
     # the other kinds built below now have their own modelled families in c05_families2.py
-    KINDS = ["layernorm"]
+    KINDS = ["layernorm", "rotary1", "rotary2", "gqa"]
+
+    def prefer_for(self, c):
+        return "ref" if c["kind"] in ("rotary1", "rotary2", "gqa") else "ort"
+    rule_keys_extra = ("fusion._rotary_embedding.", "fusion._gqa.")
     rule_keys = ("cast_constant_of_shape_rule", "cast_constant_of_shape_without_value_rule", "two_reshapes_matmul_reshape_rule",
                  "one_reshape_matmul_reshape_rule", "gemm_to_matmul_add_rule", "slice_split_rule", "fuse_hardswish_rules",
                  "conv_affine_fusion_rule", "affine_conv_fusion_rule", "fusion._layer_norm._layer_norm_rule", "no_op_dynamic_scatter_nd_rule")
@@ -1595,6 +1599,8 @@ class MiscFam(Family):
         import onnx
         C = rules_common()
         k, v, near = c["kind"], c["v"], c["near"]
+        if k in ("rotary1", "rotary2", "gqa"):
+            return self.build_fusion_host(k)
         hst = Host()
         i64 = np.int64
         if k in ("ccos", "ccos_nv"):
@@ -1719,6 +1725,42 @@ class MiscFam(Family):
         hst.node("ScatterND", ["d", "idx", "u"], ["y"], reduction="none")
         hst.out("y", F32, None)
         return hst, [C.no_op_dynamic_scatter_nd_rule]
+
+    def build_fusion_host(self, k):
+        """hosts taken from /repo's own model zoo / unit test (after `optimize`, as the fusions expect), opset 23"""
+        import onnx_ir as ir
+        import onnxscript
+
+        class ProtoHost:
+            def __init__(self, proto, feed_fn):
+                self.proto, self.feed_fn = proto, feed_fn
+            def model(self, infer=True):
+                return self.proto
+            def make_feeds(self, r):
+                return self.feed_fn(r)
+
+        if k == "gqa":
+            from onnxscript.rewriter.rules.fusion import _gqa, _gqa_test
+            m = ir.serde.deserialize_model(_gqa_test._gqa_script.to_model_proto())
+            onnxscript.optimizer.optimize(m)
+            proto = ir.serde.serialize_model(m)
+            def feeds(r, proto=proto):
+                return {i.name: r.rand(*[d.dim_value for d in i.type.tensor_type.shape.dim]).astype(np.float32) for i in proto.graph.input}
+            return ProtoHost(proto, feeds), _gqa.gqa_rules
+        from onnxscript.rewriter.models import _rotary_embedding_models as RM
+        from onnxscript.rewriter.rules.fusion import _rotary_embedding as RE
+        t = (RM.test_case_1 if k == "rotary1" else RM.test_case_2)()
+        m = t.get_onnx_model()
+        m.graph.opset_imports[""] = 23
+        onnxscript.optimizer.optimize(m)
+        proto = ir.serde.serialize_model(m)
+        base = t.get_ort_inputs()
+        def feeds(r, base=base):
+            out = {}
+            for kk, vv in base.items():
+                out[kk] = vv if vv.dtype.kind in "iu" else r.rand(*vv.shape).astype(vv.dtype)
+            return out
+        return ProtoHost(proto, feeds), RE.rotary_embedding_rules
 
     def line(self, c):
         return f"misc kind={c['kind']} v={c['v']} near={int(c['near'])}"
